@@ -12,11 +12,20 @@
 // See the License for the specific language governing permissions and
 // limitations under the License.
 
+#[cfg(not(foyer_verif))]
 use std::{
     cell::UnsafeCell,
     fmt::Debug,
     sync::atomic::{AtomicU64, AtomicUsize, Ordering},
 };
+#[cfg(foyer_verif)]
+use std::{
+    cell::UnsafeCell,
+    fmt::Debug,
+    sync::atomic::{Ordering},
+};
+#[cfg(foyer_verif)]
+use foyer_common::verif::sync::atomic::{AtomicU64, AtomicUsize};
 
 use bitflags::bitflags;
 
